@@ -18,7 +18,7 @@ func TestVerifSim(t *testing.T) {
 		Real:  []string{"internal/app nodeMessageIDs.Next and SetFloor (lock-free floor CAS loop)", "bwmarrin/snowflake Node.Generate reading the synctest fake clock"},
 		Stub:  []string{"callers (2-6 tasks)", "the Go scheduler between yield points: app.VerifYieldHook parks every task at every yield site and the tape decides who proceeds", "the clock (fake time advanced in 50 us / 1 ms / 3 s steps between decisions)"},
 		Rule: "One run = one synctest bubble. Sampling runs: k in 2..6 tasks with 1-4 calls each (Next; one task also calls SetFloor), every interleaving decision and clock step drawn from the tape. " +
-			"Exhaustive runs: a small program (2 callers x 2 calls, 3 callers x 1 call, with or without one SetFloor) whose first three scheduling decisions come from the tape and whose remaining interleavings are ALL enumerated by depth-first search inside the run (probe exh.chunk.* names every chunk covered). " +
+			"Exhaustive runs: a small program (2 callers x 2 calls, 3 callers x 1 call, two allocators plus a fence-setting third task; fences in the past, at the current millisecond, at or just above ids already drawn but not yet published, and in the future) whose first three scheduling decisions come from the tape and whose remaining interleavings are ALL enumerated by depth-first search inside the run (probe exh.chunk.* names every chunk covered). " +
 			"Non-trivial = at least one call started while another call was between two of its yield points.",
 		Assumptions: []string{"testing/synctest fake clock (monotone; go1.26.8)", "interleavings are explored at the granularity of the H4 yield sites (after Generate, after each floor load); atomics between two sites execute as one step",
 			"never more than 4096 ids per fake millisecond (Snowflake would spin on the frozen clock)"},
@@ -67,8 +67,10 @@ type exec struct {
 	events   int
 	current  int
 	overlap  bool
-	maxID    uint64
-	lastID   uint64
+	// fenceRace: a SetFloor was in progress while two Next calls had drawn but not published
+	fenceRace bool
+	maxID     uint64
+	lastID    uint64
 }
 
 func nowSnowMS() int64 { return time.Since(time.UnixMilli(sfEpochMS)).Milliseconds() }
@@ -92,11 +94,23 @@ func (e *exec) floorValue(s opSpec) uint64 {
 		return mk(now+2, 0)
 	case 4:
 		return mk(now+10000, 0)
+	case 6:
+		// one of the first ids of the current millisecond: at or just above ids
+		// that concurrent Next calls have already drawn but not yet published,
+		// and below the probe SetFloor is about to draw (a restored maximum of
+		// another incarnation may well exceed everything issued here so far)
+		d := int64(s.delta)
+		if d < 0 {
+			d = 0
+		}
+		return mk(now, d)
 	default:
-		if e.lastID == 0 {
+		// around the greatest id returned so far; with positive deltas this again
+		// lands on ids that are drawn but unpublished (same millisecond: consecutive)
+		if e.maxID == 0 {
 			return mk(now, 1)
 		}
-		return uint64(int64(e.lastID) + int64(s.delta))
+		return uint64(int64(e.maxID) + int64(s.delta))
 	}
 }
 
@@ -129,6 +143,18 @@ func (e *exec) enabled() []action {
 		parked[p.Info.(int)] = p
 	}
 	var acts []action
+	drawn, fencing := 0, false
+	for _, t := range e.tasks {
+		if t.active != nil && t.active.kind == 'N' {
+			drawn++ // parked after Generate, id not yet published
+		}
+		if t.active != nil && t.active.kind == 'F' {
+			fencing = true
+		}
+	}
+	if fencing && drawn >= 2 {
+		e.fenceRace = true
+	}
 	for _, t := range e.tasks {
 		t := t
 		switch {
@@ -217,15 +243,22 @@ func (e *exec) check() (class, detail string) {
 			continue
 		}
 		for _, b := range e.calls {
-			if !b.done || b.kind != 'N' || a == b || a.end >= b.start {
+			if !b.done || b.kind != 'N' || a == b {
 				continue
 			}
-			// a returned before b started
-			if a.kind == 'N' && a.id >= b.id {
-				return "not-increasing", fmt.Sprintf("t%d call %d returned %d before t%d call %d started, which returned %d", a.task, a.idx, a.id, b.task, b.idx, b.id)
+			// "once a restore floor is set no id at or below the restored maximum is
+			// issued": an id ISSUED (returned) after SetFloor(f) returned nil must be
+			// above f, whenever that Next call started
+			if a.kind == 'F' && a.err == nil && a.end < b.end && b.id <= a.floor {
+				when := "started earlier but returned later"
+				if a.end < b.start {
+					when = "started later"
+				}
+				return "id-at-or-below-floor", fmt.Sprintf("SetFloor(%d) by t%d returned nil at event %d; t%d call %d (%s, events %d-%d) then returned %d", a.floor, a.task, a.end, b.task, b.idx, when, b.start, b.end, b.id)
 			}
-			if a.kind == 'F' && a.err == nil && b.id <= a.floor {
-				return "id-at-or-below-floor", fmt.Sprintf("SetFloor(%d) by t%d returned nil before t%d call %d started, which returned %d", a.floor, a.task, b.task, b.idx, b.id)
+			// a returned before b started
+			if a.kind == 'N' && a.end < b.start && a.id >= b.id {
+				return "not-increasing", fmt.Sprintf("t%d call %d returned %d before t%d call %d started, which returned %d", a.task, a.idx, a.id, b.task, b.idx, b.id)
 			}
 		}
 	}
@@ -245,6 +278,20 @@ func (e *exec) summary() string {
 }
 
 func (e *exec) noteProbes() {
+	if e.fenceRace {
+		e.r.Probe("setfloor.while_two_ids_drawn_unpublished")
+	}
+	for _, a := range e.calls {
+		if a.kind != 'F' || a.err != nil || !a.done {
+			continue
+		}
+		for _, b := range e.calls {
+			if b.kind == 'N' && b.done && b.start < a.end && b.end > a.end {
+				e.r.Probe("setfloor.accepted_with_next_in_flight")
+				break
+			}
+		}
+	}
 	for _, c := range e.calls {
 		if c.kind == 'F' {
 			if c.err == nil {
@@ -263,6 +310,10 @@ var exhaustivePrograms = [][][]opSpec{
 	{{{kind: 'N'}}, {{kind: 'N'}}, {{kind: 'N'}}},
 	{{{kind: 'N'}, {kind: 'N'}}, {{kind: 'F'}}},
 	{{{kind: 'N'}, {kind: 'F'}}, {{kind: 'N'}, {kind: 'N'}}},
+	// three parties: two allocators can sit between drawing and publishing their
+	// ids while the fence is being set
+	{{{kind: 'N'}}, {{kind: 'N'}}, {{kind: 'F'}}},
+	{{{kind: 'N'}}, {{kind: 'N'}}, {{kind: 'F'}, {kind: 'N'}}},
 }
 
 func cloneProgs(in [][]opSpec, fkind, delta int) [][]opSpec {
@@ -300,9 +351,10 @@ func runC30(t *testing.T, r *simkit.Run) {
 func runExhaustive(r *simkit.Run, cur **exec) {
 	tp := r.Tape
 	shape := tp.Intn(len(exhaustivePrograms))
-	fkind := []int{1, 2, 5, 3}[tp.Intn(4)]
-	delta := tp.Intn(3) - 1
-	clock := tp.Intn(3) // 0 frozen, 1 = 300us after every decision, 2 = 1ms after every decision
+	fkind := []int{1, 2, 5, 3, 6}[tp.Intn(5)]
+	delta := tp.Intn(5) - 1 // -1..3
+	// clock: 0 frozen, 1 = 300us after every decision, 2 = 1ms after every decision
+	clock := tp.Intn(3)
 	node := int64(1 + tp.Intn(3))
 	const prefixLen = 3
 	prefix := make([]int, prefixLen)
@@ -401,7 +453,7 @@ func runExhaustive(r *simkit.Run, cur **exec) {
 
 func runSample(r *simkit.Run, cur **exec) {
 	tp := r.Tape
-	k := 2 + tp.Intn(5)
+	k := 2 + tp.Weighted([]int{1, 3, 3, 2, 2}) // 3+ tasks: two allocators can be mid-call while the third sets the fence
 	node := int64(1 + tp.Intn(3))
 	jumps := tp.Intn(4) != 0
 	setter := tp.Intn(k)
@@ -415,10 +467,10 @@ func runSample(r *simkit.Run, cur **exec) {
 		total += n
 	}
 	at := tp.Intn(len(progs[setter]) + 1)
-	f := opSpec{kind: 'F', fkind: tp.Weighted([]int{1, 2, 2, 2, 1, 4}), delta: tp.Intn(5) - 2}
+	f := opSpec{kind: 'F', fkind: tp.Weighted([]int{1, 2, 2, 2, 1, 4, 4}), delta: tp.Intn(7) - 2}
 	progs[setter] = append(progs[setter][:at], append([]opSpec{f}, progs[setter][at:]...)...)
 	if tp.Chance(1, 3) { // a second fence from the same task
-		f2 := opSpec{kind: 'F', fkind: tp.Weighted([]int{1, 2, 2, 2, 1, 4}), delta: tp.Intn(5) - 2}
+		f2 := opSpec{kind: 'F', fkind: tp.Weighted([]int{1, 2, 2, 2, 1, 4, 4}), delta: tp.Intn(7) - 2}
 		progs[setter] = append(progs[setter], f2)
 	}
 	r.Config = map[string]any{"mode": "sample", "tasks": k, "calls": total, "setter": setter, "node": node, "jumps": jumps}
